@@ -14,8 +14,14 @@ pub fn roots() -> Vec<Model> {
         .lines()
         .map(|l| l.trim())
         .filter(|l| !l.is_empty() && !l.starts_with('#'))
+        .map(|l| l.strip_prefix("reachable ").unwrap_or(l))
         .map(|l| decode(l, false).unwrap_or_else(|| panic!("curated root is not a canonical record: {}", l)).0)
         .collect()
+}
+
+/// Is this (canonical Shredder) record one of the curated roots marked as reachable by legal play?
+pub fn is_reachable_root(text: &str) -> bool {
+    ROOTS_TXT.lines().filter_map(|l| l.trim().strip_prefix("reachable ")).any(|l| decode(l, false).map_or(false, |d| d.0.to_fen(true) == text))
 }
 
 /// Per-run swarm configuration.
@@ -145,6 +151,13 @@ impl Gen {
                     wt += self.swarm.bias_pawn;
                     if (rank_of(mv.to) - rank_of(mv.from)).abs() == 2 {
                         wt += self.swarm.bias_pawn;
+                        // a double push that gives check (by the pawn or by a piece behind it) is the
+                        // delicate case of the EP validity rules: make it frequent
+                        let mut n = m.clone();
+                        n.make(mv);
+                        if n.in_check(n.stm) {
+                            wt += 40;
+                        }
                     }
                 }
                 if mv.promo != 0 {
